@@ -245,6 +245,10 @@ def oracle(case, res, hist):
                     elif dd[0] == "end":
                         first_eof = seq if first_eof is None else min(first_eof, seq)
     D.sort()
+    neof = sum(1 for aid in case["observers"] for oi, op in enumerate(case["actors"][aid]["ops"]) if op[0] == "drain"
+               for s_, dd in hist.sub.get((aid, oi), ()) if dd[0] == "eof")
+    if neof >= 2:
+        res.sched.probe("endmarker-requeued-for-another-receiver")
     toks = [t for _, t, _ in D]
     has_receiver = any(op[0] in ("drain", "setcb") for a in case["observers"] for op in case["actors"][a]["ops"])
     if has_receiver:
